@@ -99,6 +99,14 @@ CHECKS = {
         "text": "The same model network drives the nick life-cycle: 433 collisions before the welcome (answered by NICK NewNick(refused), NewNick transcribed in TLA+), 001 with the same, another or a case-variant nick, client-requested changes confirmed or refused, server-forced changes, other users renaming to and from look-alike nicks. After every replayed edge Me().Nick must equal the server's nick for the client and Me()/Config().Me must be non-nil, with and without state tracking; the default generator is swept over all 256 last bytes and validated by TLC.",
         "note": MC_NOTE + " The handlers are not modelled: the real client plays their part in every replayed edge, the model network is the oracle.",
     },
+    "C19": {
+        "engine": "Caps.tla", "level": "model_checking", "design_ref": "7 (C19)",
+        "technique": "TLA+ model of CAP LS/REQ/ACK/NAK/END and SASL PLAIN/EXTERNAL with outcomes 903/904/908; TLC closure over all wanted/advertised subsets and reply scripts, two action properties proved on the model, every edge replayed on a real client; long capability lists force request splitting",
+        "text": "Caps.tla says, for every configuration (wanted subset, SASL mechanism) and every server reply, what a conforming client writes and what HasCapability / SupportsCapability "
+                "answer afterwards; TLC proves on the model that only wanted-and-advertised capabilities are ever requested and that every way out of the negotiation ends with CAP END, "
+                "and each edge is replayed over a real connection.",
+        "note": MC_NOTE,
+    },
     "C12": {
         "engine": "Tracker.tla", "level": "model_checking", "design_ref": "7 (C12), 4.4",
         "technique": "TLA+ relational model; TLC closure of reachable states; every state-graph edge replayed on the real tracker + TLC trace validation of recorded random histories",
